@@ -52,8 +52,10 @@ class Harness:
         self.build_s = 0.0
         self.tu_seconds = {}
 
+    std = "-std=c++17"
+
     def _cxx(self, extra):
-        return [self.cxx, "-std=c++17", "-I" + INCLUDE, "-I" + self.work] + self.flags + extra
+        return [self.cxx, self.std, "-I" + INCLUDE, "-I" + self.work] + self.flags + extra
 
     def build(self):
         t0 = time.time()
@@ -666,6 +668,8 @@ def replay(path, quiet=False):
     valgrind = plan.get("build") == "plain-memcheck"
     names |= {o["pair"] for o in plan["plan"] if "pair" in o}
     flags_ = PLAIN_FLAGS if valgrind else (TSAN_FLAGS if plan.get("build") == "tsan" else SAN_FLAGS)
+    if plan.get("build") == "cond":
+        flags_ = SAN_FLAGS + Catalogue().conditional_build_flags()["flags"]
     h = Harness(common.scratch("c20r"), flags_, only=names, ntus=1, label="replay")
     err = h.build()
     if err:
@@ -720,8 +724,18 @@ def main(tier, seed):
     # concurrent build (ThreadSanitizer): classes x double + all unit/enum/base/model ops in quick, everything in thorough
     tsub = subset if thorough else {"double": subset["double"]}
     ht = Harness(os.path.join(root, "tsan"), TSAN_FLAGS, subset=tsub, label="tsan", ntus=ntsan)
+    # conditionally compiled code (#if __AVX__, NDEBUG, a library switch ...): one more sanitizer build with the conditions ON
+    cond = hs.cat.conditional_build_flags()
+    hx = None
+    if cond["flags"] or cond["cxx20"]:
+        xflags = [f for f in SAN_FLAGS] + cond["flags"]
+        hx = Harness(os.path.join(root, "cond"), xflags, subset=(subset if thorough else {"double": subset["double"]}), label="cond", ntus=max(2, common.NCPU // 3))
+        if cond["cxx20"]:
+            hx.std = "-std=c++20"
+        log("conditional code found in the headers (%s): extra sanitizer build with %s%s" % (
+            ", ".join(cond["macros"]), " ".join(cond["flags"]), " -std=c++20" if cond["cxx20"] else ""))
     # the builds share the cores; the sanitizer build is the long pole
-    errs = pmap(lambda h: h.build(), [hs, hp, ht], 3)
+    errs = pmap(lambda h: h.build(), [h_ for h_ in (hs, hp, ht, hx) if h_ is not None], 4)
     for e in errs:
         if e:
             log("INFRASTRUCTURE: " + e)
@@ -802,6 +816,9 @@ def main(tier, seed):
     # 2. exhaustive selector sweeps (fault-free) + the same under allocation faults for a sample
     sweep = gen_sweeps(hs, cat, thorough, Rng(common.run_seed(seed, 9)))
     execute("sweeps", hs.exe, chunked(sweep, 100000))
+    if hx is not None:
+        execute("conditional-build", hx.exe, chunked(gen_enumeration(hx, rng, draws=1) + gen_enumeration(hx, rng, draws=(40 if thorough else 8), faults=False)
+                                                     + [o for o in gen_value_classes(hx, rng) if thorough or o["vc"] in (0, 2, 5, 6, 9)], 60000, size=512), build="cond")
     # 3. fault-free batch on its own (so the relaxation under faults can hide nothing)
     ff = gen_enumeration(hs, rng, draws=(300 if thorough else 24), faults=False)
     execute("fault-free", hs.exe, chunked(ff, 200000, size=512))
@@ -888,7 +905,7 @@ def main(tier, seed):
         for fam, items in unknown[:2]:      # minimise and report up to two families per class
             b, ops_, e = min(items, key=lambda it: it[2]["op"])
             valgrind = b == "plain-memcheck"
-            exe = hp.exe if valgrind else (ht.exe if b == "tsan" else hs.exe)
+            exe = hp.exe if valgrind else (ht.exe if b == "tsan" else (hx.exe if b == "cond" else hs.exe))
             env_ = e.get("env")
             plan_ops, used = minimise(exe, ops_, e, valgrind, env=env_)
             name = ops_[e["op"]]["name"]
@@ -944,6 +961,7 @@ def main(tier, seed):
         "faults_fired_by_kind": fault_kinds, "totals": {k: v for k, v in sorted(totals.items()) if "." not in k},
         "by_phase": {k: v for k, v in sorted(totals.items()) if "." in k and k.endswith(".execs")},
         "op_family_bigrams_in_histories": len(bigrams),
+        "conditional_code": cond,
         "determinism_sample": {"plans": len(det_runs), "worker_assignments": [1, min(16, common.NCPU)], "identical": True},
         "violation_groups": len(groups), "known_findings_matched": len(known_lines),
         "components": {"real": ["all PhQ headers from /repo/include (working tree)", "libstdc++ (strings, streams, containers, stod family) in debug mode",
